@@ -26,7 +26,10 @@ VARIABLES l,      \* next line of Trace to consume
 
 dvars == <<l, st, dead, bad, nscen>>
 
-DInit == /\ l = 1 /\ st = [none |-> TRUE] /\ dead = TRUE /\ bad = <<>> /\ nscen = 0
+\* The rejections are collected in TLC register 2 (not in the state: a state that carries a growing list makes
+\* fingerprinting quadratic in the number of rejections, e.g. with thousands of known-finding hits); `bad` counts them.
+\* Trace validation always runs with one worker.
+DInit == /\ TLCSet(2, <<>>) /\ l = 1 /\ st = [none |-> TRUE] /\ dead = TRUE /\ bad = 0 /\ nscen = 0
 
 DNext ==
     /\ l <= Len(Trace)
@@ -38,12 +41,13 @@ DNext ==
          ELSE IF Guard(st, e)
                 THEN /\ st' = Effect(st, e) /\ UNCHANGED <<dead, bad, nscen>>
                 ELSE /\ dead' = TRUE /\ UNCHANGED <<st, nscen>>
-                     /\ bad' = Append(bad, [line |-> l, why |-> Why(st, e), ev |-> e])
+                     /\ TLCSet(2, Append(TLCGet(2), [line |-> l, why |-> Why(st, e), ev |-> e]))
+                     /\ bad' = bad + 1
 
 DSpec == DInit /\ [][DNext]_dvars
 
 \* evaluated as an invariant: writes the verdict file exactly when the whole trace was consumed
 Report == (l = Len(Trace) + 1) =>
             ndJsonSerialize(OutFile, <<[summary |-> TRUE, events |-> Len(Trace), scenarios |-> nscen,
-                                        rejected |-> Len(bad)]>> \o bad)
+                                        rejected |-> bad]>> \o TLCGet(2))
 =============================================================================
